@@ -3,7 +3,7 @@
 From Coq Require Export ZArith.
 From AGH Require Import Base.Run.
 From AGH Require Export Model.ClientIndex Model.ClientIDCache.
-From AGH Require Export Run.C04Conf.
+From AGH Require Export Run.C04Conf Run.C04SMap.
 From AGH Require Model.Schedule.
 Local Open Scope N_scope.
 
@@ -51,8 +51,12 @@ Inductive case :=
   | CHand (evs : list (ev * option bytes))
   (* round 3, configuration round trip (Run/C04Conf.v): file objects (with the
      uid NewUID gave when the object has none) -> Init -> forConfig -> Init *)
-  | CConf (env : henv) (probes : list (bytes * addr)) (g : settings)
-          (objs : list (uid * cobj)) (res1 : cres) (res2 : option cres).
+  | CConf (env : henv) (srcs : sources) (leases : list (addr * bytes))
+          (probes : list (bytes * addr)) (g : settings)
+          (objs : list (uid * cobj)) (res1 : cres) (res2 : option cres)
+  (* round 4, aghalg.SortedMap on its own (Run/C04SMap.v): Set / Del / Clear
+     calls on the real structure with what Range / Get showed after each *)
+  | CSMap (univ : list prefix) (addrs : list bytes) (steps : list (pmop * smobs)).
 
 Definition err_code (e : err) : N :=
   match e with
@@ -130,8 +134,9 @@ Definition case_ok (c : case) : bool :=
   match c with
   | CHist finds names acfs g env gb0 steps => replay finds names acfs g env empty_index [] gb0 steps
   | CHand evs => replay_ev [] evs
-  | CConf env probes g objs res1 res2 =>
-      conf_ok err_code eqb_settings (cfg_of env) (he_known env) probes g objs res1 res2
+  | CConf env srcs leases probes g objs res1 res2 =>
+      conf_ok err_code eqb_settings srcs leases (cfg_of env) (he_known env) probes g objs res1 res2
+  | CSMap univ addrs steps => sm_replay univ addrs pm_new steps
   end.
 
 Definition mismatches := Base.Run.mismatches case_ok.
@@ -159,8 +164,9 @@ Definition explain (c : case) :=
   match c with
   | CHist finds names acfs g env gb0 steps =>
       (explain_steps finds names acfs g env empty_index [] gb0 steps, @nil (option bytes),
-       @None (cres * option cres))
-  | CHand evs => ([], explain_ev [] evs, None)
-  | CConf env probes g objs _ _ =>
-      ([], [], Some (conf_model err_code (cfg_of env) (he_known env) probes g objs))
+       @None (cres * option cres), @nil sm_explained)
+  | CHand evs => ([], explain_ev [] evs, None, [])
+  | CConf env srcs leases probes g objs _ _ =>
+      ([], [], Some (conf_model err_code srcs leases (cfg_of env) (he_known env) probes g objs), [])
+  | CSMap univ addrs steps => ([], [], None, sm_explain univ addrs pm_new steps)
   end.
